@@ -104,7 +104,13 @@ WORDS = ['wa', 'wb']
 KEYWORD_ARGS = ['if', 'fi', 'done', 'for', 'while', 'else', 'do', 'then', 'break', 'continue', 'in', 'function']
 
 
-def render(tree, semi, layout):
+def cond_text(cid, form):
+    """how a condition is written: a single command, or a list whose status decides (form 1: `c || c`, form 2: `c && c`)"""
+    c = 'vh-cond %d' % cid
+    return c if form == 0 else ('%s || %s' % (c, c) if form == 1 else '%s && %s' % (c, c))
+
+
+def render(tree, semi, layout, form=0):
     lines = []
     ind_unit = '    ' if layout in (0, 2) else '\t'
 
@@ -129,7 +135,7 @@ def render(tree, semi, layout):
         elif s[0] == 'if':
             for k, (cid, body) in enumerate(s[1]):
                 kw = 'if' if k == 0 else 'else if'
-                emit('%s vh-cond %d%s' % (kw, cid, '; then' if semi else ''), depth)
+                emit('%s %s%s' % (kw, cond_text(cid, form), '; then' if semi else ''), depth)
                 block(body, depth + 1)
             if s[2] is not None:
                 emit('else', depth)
@@ -141,7 +147,7 @@ def render(tree, semi, layout):
             block(s[3], depth + 1)
             emit('done', depth)
         else:
-            emit('while vh-cond %d%s' % (s[1], '; do' if semi else ''), depth)
+            emit('while %s%s' % (cond_text(s[1], form), '; do' if semi else ''), depth)
             block(s[2], depth + 1)
             emit('done', depth)
     block(tree, 0)
@@ -152,19 +158,27 @@ class Stop(Exception):
     pass
 
 
-def interpret(tree, answers, limit=60):
+def interpret(tree, answers, limit=60, form=0):
     """reference interpreter: returns (trace, number of condition evaluations)"""
     trace = []
     pos = [0]
     env = {}
 
-    def cond(cid):
+    def cond1(cid):
         a = answers[pos[0]] if pos[0] < len(answers) else '1'
         trace.append(('cond', cid, pos[0]))
         pos[0] += 1
         if len(trace) > limit:
             raise Stop()
         return a == '0'
+
+    def cond(cid):
+        first = cond1(cid)
+        if form == 1:
+            return first or cond1(cid)       # c || c: the second is only run if the first fails
+        if form == 2:
+            return first and cond1(cid)      # c && c
+        return first
 
     def block(b):
         for s in b:
@@ -298,12 +312,35 @@ def run(rep, tier):
             for i in range(len(ans), min(used, amax)):
                 alt = ans + '1' * (i - len(ans)) + '0'
                 stack.append(alt)
+    # conditions written as lists (`c || c`, `c && c`): the status of the LIST decides, and the second command runs only
+    # when the first does not decide
+    nforms = 0
+    for form in (1, 2):
+        for ti, t in enumerate(small):
+            if kinds(t) == 'cmds' or not any(k in kinds(t) for k in ('if', 'while')):
+                continue
+            stack = ['']
+            seen = set()
+            while stack:
+                ans = stack.pop()
+                if ans in seen:
+                    continue
+                seen.add(ans)
+                tr, used = interpret(t, ans, form=form)
+                if tr is None:
+                    continue
+                sm = (ti + len(ans)) % 2 == 1
+                jobs.append((render(t, sm, 0, form), ans))
+                meta.append((t, ans, tr, sm))
+                nforms += 1
+                for i in range(len(ans), min(used, amax)):
+                    stack.append(ans + '1' * (i - len(ans)) + '0')
     results = common.pmap(run_script, jobs, chunk=6)
     states = set()
     for (text, ans), (t, a, exp, semi), o in zip(jobs, meta, results):
         rep.evaluations += 1
         rep.transitions += max(1, len(exp))
-        k = kinds(t)
+        k = kinds(t) + ('+or-condition' if '|| vh-cond' in text else '+and-condition' if '&& vh-cond' in text else '')
         if k != 'cmds':
             rep.nontrivial += 1
         states.add(repr(o['trace']))
@@ -332,6 +369,7 @@ def run(rep, tier):
             rep.violation('%s:%s:%s' % (dev, k, 'semi' if semi else 'newline'), {'script': text, 'condition_answers': ans or '(all false)'},
                           {'trace': exp}, {'trace': o['trace'], 'status': o['status'], 'stderr': o['err']},
                           repro='write the script to s.sh, the answers to $VH_DIR/cond, run cicada s.sh')
+    rep.bounds.append({'layer': 'conditions written as || and && lists, trees with <= %d nodes' % (4 if tier == 'thorough' else 3), 'runs': nforms, 'complete': True})
     rep.bounds.append({'layer': 'positive trees', 'trees': len(trees), 'runs': len(jobs), 'max_nodes': nmax, 'max_answers': amax, 'complete': True})
     # negatives
     neg_jobs, neg_meta = [], []
